@@ -36,6 +36,11 @@ Definition keq (p : cit * cit) : bool :=
 """
 
 
+def _ext_for(s):
+    from eyecite.tokenizers import EXTRACTORS
+    return [e for e in EXTRACTORS if s in e.strings and not (e.extra or {}).get("short")]
+
+
 def run(ctx):
     from eyecite import get_citations
     from eyecite.models import (CaseCitation, FullCaseCitation, FullJournalCitation, FullLawCitation, IdCitation,
@@ -46,7 +51,7 @@ def run(ctx):
     db = textgen.db()
     strings = sorted(set(db["reporters"]) | set(db["journals"]))
     if not th:
-        strings = rng.sample(strings, 350) + ["U. S.", "U.S.", "F. 2d", "S.Ct.", "Cra.", "Wall."]
+        strings = rng.sample(strings, 350) + ["U. S.", "U.S.", "F. 2d", "S.Ct.", "Cra.", "Wall."] + list(textgen.NOMINATIVE)
     else:
         ctx.exhaustive["sweep: every reporter/journal string of the database"] = len(strings)
 
@@ -84,6 +89,22 @@ def run(ctx):
                     ctx.violation(None, "normalised citation text is not a fixed point of normalisation",
                                   dict(stream="sweep", text=t1, normalised=norm, again=c2.corrected_citation()))
         if isinstance(c1, FullCaseCitation):
+            # a different WRITTEN volume is a different document (ground truth from the text, not from the groups)
+            t5 = f"347 {s} 2"
+            try:
+                c5 = one(t5, s)
+            except Exception:  # noqa
+                c5 = None
+            if c5 is not None and c5.span()[1] == len(t5):
+                if c5.span()[0] == 0 and c1.span()[0] == 0 and (c5 == c1 or hash(c5) == hash(c1)):
+                    ctx.violation(None, f"citations written with different volumes ('1 {s} 2', '347 {s} 2') compare equal",
+                                  dict(stream="sweep", a=t1, b=t5))
+                elif c5.span()[0] != 0:
+                    ctx.count("sweep: three-digit volume not part of the citation (volume-less pattern only)")
+                    if s in textgen.NOMINATIVE and any(k.span() == (0, len(t5)) for k in get_citations(t5)) is False and \
+                            any(len(e_.regex) and "volume>[1-9]" in e_.regex and s in e_.strings for e_ in _ext_for(s)):
+                        ctx.violation(None, f"'347 {s} 2' is not extracted with its volume although a pattern with a free volume exists",
+                                      dict(stream="sweep", text=t5))
             # context / metadata do not matter (as long as the year does not change the edition guess)
             t3 = f"See Foo v. Bar, 1 {s} 2, 5 (overruling Baz)."
             try:
@@ -112,6 +133,8 @@ def run(ctx):
     docs = ["1 U.S. 1; 1 U. S. 1; 1 U.S. 2; 2 U.S. 1; 1 U.S. ___; 1 U.S. ___. Id. at 3. § 5. 1 U.S. at 1; Foo, 1 U. S., at 1",
             # placeholder pages in short forms too: each is equal only to itself
             "Carpenter, 585 U.S., at ___ (slip op., at 11); Carpenter, 585 U.S., at ___ (slip op., at 15); 585 U.S. at __",
+            # nominative reporters: the volume matters also when the volume-less pattern cannot take it
+            "347 Cooke 1; 999 Cooke 1; 5 Cooke 10; 5 Tenn. (Cooke) 10; 347 Thompson 1; 12 Thompson 1; 347 Holmes 20; 999 Holmes 20",
             "1 Minn. L. Rev. 1; 1 Minn. L. Rev. 1; 1 Minn. L. Rev. 2; 42 U.S.C. § 1983; 42 U.S.C. § 1983; 42 U.S.C. § 1984"]
     # same volume and page in sibling series of one reporter (F. / F.2d / F.3d, A. / A.2d ...): different documents
     from reporters_db import REPORTERS
